@@ -110,7 +110,10 @@ _A = ["execCall", "execAsyncCall"]
 _E = ["eventCall", "smSend"]
 SRC_TIE = {
     "C07": ["eventCall", "reservedNames", "injectedNames", "bindExpected", "callableMethod"],
-    "C13": _E,
+    "C13": _E + ["allowedEvents"],
+    "C10": ["store", "smInit"],
+    "C12": ["smInit", "registerCallbacks", "addListener"],
+    "C17": ["getState", "setState", "registerCallbacks", "addListener"],
     "C09": ["visitConnected", "classCheck", "metaInit", "transitionInit"],
     "C01": ["triggerSync", "triggerAsync"] + _W + _G,
     "C02": ["activateSync", "activateAsync"] + _W + _A,
@@ -119,13 +122,15 @@ SRC_TIE = {
     "C06": ["processSync", "processAsync"],
     "C05": ["activateSync", "activateAsync", "triggerSync", "triggerAsync", "processSync", "processAsync"] + _W + _G + _A,
     "C08": _W + _G + ["parser"],
-    "C11": ["triggerSync", "triggerAsync", "engineStart"],
+    "C11": ["triggerSync", "triggerAsync", "engineStart", "store", "smInit"],
     "C14": ["activateSync", "activateAsync"] + _W + _A,
 }
 TIE_MOD = "SMV.Src.Tie"
 TIE_MODS = ["SMV.Src.Tie", "SMV.Src.TieExpr"]
 # further tie modules, built and audited only for the properties whose index names their theorems
-TIE_EXTRA = {"C07": ["SMV.Src.TieBind"], "C09": ["SMV.Src.TieCheck"]}
+TIE_EXTRA = {"C07": ["SMV.Src.TieBind"], "C09": ["SMV.Src.TieCheck"], "C10": ["SMV.Src.TieStore"],
+             "C11": ["SMV.Src.TieStore"], "C12": ["SMV.Src.TieStore"], "C13": ["SMV.Src.TieStore"],
+             "C17": ["SMV.Src.TieStore"]}
 
 
 def source_tie(ctx: Ctx):
